@@ -333,25 +333,14 @@ def c10(ctx, rep, rule_prefix):
     else:
         rep.ok(rule_prefix + ".priv", key + "|plaintext-refused-with-privacy", "privacy level is tested", body.loc(pr[0][1].line))
     # a failed decrypt never delivers
-    CHAIN = ("::ok", "::branch", "::map_err", "::ok_or", "::ok_or_else")   # failure-preserving adapters: Err -> None / Break / Err
-
-    def through(t):
-        while t[0] == "call" and any((t[1] or "").endswith(c) for c in CHAIN) and t[2]:
-            t = t[2][0]
-        return t
-    sw = [(b, through(t)) for b, t in flow.discr_switches(body, prov, lambda t: _is_call(through(t), "::decrypt"))]
-    # drop elaboration re-tests the discriminant inside the arms: only the switches not dominated by another one decide
-    dom = cfg.dominators(body)
-    sw = [(b, t) for b, t in sw if not any(o.idx != b.idx and o.idx in dom.get(b.idx, ()) for o, _ in sw)]
-    if not sw:
+    fe = flow.failure_edges(body, prov, lambda t: _is_call(t, "::decrypt"))
+    if not fe:
         rep.missing(rule_prefix + ".dec", key + ": match on priv_key.decrypt(..)")
-    for b, term in sw:
-        ve = flow.variant_edges(body, b) or {}
-        err = [tg for name, tg in ve.items() if name in ("Err", "None", "Break")]
+    for b, term, err in fe:
         if not err:
             rep.missing(rule_prefix + ".dec", key + ": failure arm of the match on priv_key.decrypt(..)")
             continue
-        r = cfg.reachable(body, err)
+        r = cells.feasible_from(body, err)
         rep.check(rule_prefix + ".dec", key + "|failed-decrypt-dropped", not (r & set(goals)), "Err(_) => return None",
                   "a message whose payload fails to decrypt can still be delivered", body.loc(b.term["line"]), obligation=True)
         a = term[2]
